@@ -227,7 +227,7 @@ Section Handlers.
     unfold handler. destruct o; try (apply rgP_bind; [|intros; exact I]).
     - apply init_auth_rgm. - apply continue_auth_rgm. - apply push_auth_rgm.
     - destruct g; try exact I; (apply rgP_bind; [|intros; exact I]); apply quiet_rgm.
-      + apply cc_grant_quiet. + apply code_grant_quiet. + apply refresh_grant_quiet. + apply ciba_grant_quiet.
+      + apply cc_grant_quiet. + apply code_grant_quiet. + apply refresh_grant_quiet. + apply jwt_bearer_grant_quiet. + apply ciba_grant_quiet.
     - apply quiet_rgm, introspect_quiet. - apply quiet_rgm, revoke_quiet. - apply quiet_rgm, userinfo_quiet.
     - apply quiet_rgm, token_info_quiet. - apply quiet_rgm, token_info_req_quiet.
     - apply init_back_auth_rgm. - apply quiet_rgm, notify_success_quiet. - apply quiet_rgm, notify_failure_quiet.
